@@ -82,6 +82,7 @@ NotW(a)    == [i \in 1..N |-> (B - 1) - a[i]]
 
 (* shifts by a natural number of bits *)
 Pow2(k) == 2 ^ k
+BitAtW(w, k) == (w[(k \div LimbBits) + 1] \div Pow2(k % LimbBits)) % 2
 ShlN(a, n) ==
     IF n >= Bits THEN Zero
     ELSE LET q == n \div LimbBits  r == n % LimbBits IN
@@ -124,6 +125,34 @@ SDivOK(a, b, q) ==
 SModOK(a, b, qabs, r) ==
     IF b = Zero THEN r = Zero
     ELSE LET ra == IF IsNeg(a) THEN NegW(r) ELSE r IN IsDivMod(Abs(a), Abs(b), qabs, ra)
+
+(* ADDMOD / MULMOD are taken over the unbounded sum / product: (a + b) mod n, (a * b) mod n,  *)
+(* with x mod 0 = 0.  q is the quotient hint (2N limbs).                                     *)
+Pad(w, n) == w \o [i \in 1..(n - Len(w)) |-> 0]
+WideOK(x, n, q, r) ==      \* x (2N limbs) = q * n + r with r < n, n # 0
+    /\ LtW(r, n)
+    /\ AddRec(Pad(MulFull(q, n), 3 * N), Pad(r, 3 * N), 1, 0) = Pad(x, 3 * N)
+AddModOK(a, b, n, q, r) == IF n = Zero THEN r = Zero
+                           ELSE WideOK(AddRec(Ext(a), Ext(b), 1, 0), n, q, r)
+MulModOK(a, b, n, q, r) == IF n = Zero THEN r = Zero ELSE WideOK(MulFull(a, b), n, q, r)
+
+(* SIGNEXTEND(b, x): extend the sign of the (b+1)-byte value x; b >= 31 leaves x unchanged *)
+SignExtendW(b, x) ==
+    LET k == SmallVal(b) IN
+    IF k < 0 \/ k >= (Bits \div 8) - 1 THEN x
+    ELSE LET bit == 8 * k + 7
+             neg == BitAtW(x, bit) = 1 IN
+         [i \in 1..N |->
+            LET lo == (i - 1) * LimbBits  hi == i * LimbBits - 1 IN
+            IF hi <= bit THEN x[i]
+            ELSE IF lo > bit THEN (IF neg THEN B - 1 ELSE 0)
+            ELSE LET keep == Pow2(bit - lo + 1) IN (x[i] % keep) + (IF neg THEN B - keep ELSE 0)]
+
+(* BYTE(i, x): the i-th byte of x counting from the most significant; 0 when i >= 32 *)
+ByteW(i, x) ==
+    LET k == SmallVal(i) IN
+    IF k < 0 \/ k >= Bits \div 8 THEN Zero
+    ELSE ShrN(ShlN(x, 8 * k), Bits - 8)
 
 (* EXP by square-and-multiply over the bits of the exponent (most significant first) *)
 BitAt(e, k) == (e[(k \div LimbBits) + 1] \div Pow2(k % LimbBits)) % 2
